@@ -13,7 +13,7 @@ def summ(d):
 if __name__ == "__main__":
     art = json.load(open(sys.argv[1]))
     inp = art.get("input", art)
-    allf = proxyfam.policy_families() + proxyfam.flight_families() + proxyfam.reval_families()
+    allf = proxyfam.all_families()
     f = next(x for x in allf if x["name"] == inp["family"])
     print(json.dumps(inp["config"]))
     for s in inp["behaviours"][0]:
